@@ -281,3 +281,133 @@ func formatVerbs(f string) []byte {
 	}
 	return out
 }
+
+// ruleCommitErrorReachesCaller: a write transaction managed by hand (Begin / Commit instead of DB.Update) reports a
+// failed commit to its caller: the error of Tx.Commit is returned, or assigned to a named result of the function whose
+// deferred literal commits. A commit error that is only logged lets the layers above advance over a round that bolt
+// rolled back. (DB.Update returns the commit error itself; the pinned tree uses only that form: the controls keep the rule honest.)
+func ruleCommitErrorReachesCaller(c *Ctx, rule string) {
+	c.ranRules[rule] = true
+	n := 0
+	for _, root := range c.P.SubjectFns() {
+		if root.Parent() != nil {
+			continue
+		}
+		for _, fn := range withClosures(root) {
+			for _, ci := range callsIn(fn, func(ci ssa.CallInstruction) bool { return strings.HasSuffix(calleeName(ci), "bbolt.Tx).Commit") }) {
+				n++
+				call, isCall := ci.(*ssa.Call)
+				ok, why := false, "the result of Commit is discarded"
+				if isCall {
+					why = "the error of Commit is neither returned nor assigned to a named result of " + fnShort(root)
+					// returned directly
+					if idx := errResultIndex(fn); idx >= 0 {
+						for _, leaf := range returnLeaves(fn, idx) {
+							if leaf.v == ssa.Value(call) || hasOrigin(Origins(leaf.v), func(o Origin) bool { return o.Val == ssa.Value(call) }) {
+								ok, why = true, "returned"
+							}
+						}
+					}
+					// assigned to a named result (of this function or of the one whose literal this is)
+					var follow func(v ssa.Value, d int)
+					follow = func(v ssa.Value, d int) {
+						if d > 4 || v.Referrers() == nil {
+							return
+						}
+						for _, r := range *v.Referrers() {
+							switch x := r.(type) {
+							case *ssa.Store:
+								if x.Val == v && isNamedErrorResult(x.Addr) {
+									ok, why = true, "assigned to a named result"
+								}
+							case *ssa.Phi, *ssa.MakeInterface, *ssa.ChangeInterface:
+								follow(r.(ssa.Value), d+1)
+							case *ssa.Call:
+								// fmt.Errorf("...%w", err) and the like: follow the wrapped error
+								if strings.HasPrefix(calleeName(x), "fmt.Errorf") || strings.HasPrefix(calleeName(x), "errors.Join") {
+									follow(x, d+1)
+								}
+							case *ssa.IndexAddr:
+							}
+						}
+					}
+					if !ok {
+						follow(call, 0)
+						for _, v := range variadicCarriers(call) {
+							follow(v, 1)
+						}
+					}
+				}
+				c.Ok(rule, fnShort(fn)+" reports a failed commit to its caller", shortPos(c.P, ci), ok, why)
+			}
+		}
+	}
+	c.Floor(rule, "hand-managed commits examined (controls included)", n, 1)
+}
+
+// isNamedErrorResult: addr is the cell of a named error result, directly or as a variable captured by a literal.
+func isNamedErrorResult(addr ssa.Value) bool {
+	var cell *ssa.Alloc
+	switch a := addr.(type) {
+	case *ssa.Alloc:
+		cell = a
+	case *ssa.FreeVar:
+		if b, ok := boundValue(a).(*ssa.Alloc); ok {
+			cell = b
+		}
+	}
+	if cell == nil || !isErrorType(derefType(cell.Type())) {
+		return false
+	}
+	res := cell.Parent().Signature.Results()
+	for i := 0; i < res.Len(); i++ {
+		if res.At(i).Name() != "" && res.At(i).Name() == cell.Comment {
+			return true
+		}
+	}
+	return false
+}
+
+// variadicCarriers: the calls that receive v through a variadic argument list (v boxed into the array behind it).
+func variadicCarriers(v ssa.Value) []ssa.Value {
+	var out []ssa.Value
+	if v.Referrers() == nil {
+		return nil
+	}
+	for _, r := range *v.Referrers() {
+		var mi ssa.Value
+		switch x := r.(type) {
+		case *ssa.MakeInterface:
+			mi = x
+		case *ssa.ChangeInterface:
+			mi = x
+		}
+		if mi == nil || mi.Referrers() == nil {
+			continue
+		}
+		for _, rr := range *mi.Referrers() {
+			st, ok := rr.(*ssa.Store)
+			if !ok {
+				continue
+			}
+			ia, ok := st.Addr.(*ssa.IndexAddr)
+			if !ok {
+				continue
+			}
+			arr, ok := ia.X.(*ssa.Alloc)
+			if !ok {
+				continue
+			}
+			for _, ar := range *arr.Referrers() {
+				if sl, ok := ar.(*ssa.Slice); ok && sl.Referrers() != nil {
+					for _, sr := range *sl.Referrers() {
+						if call, ok := sr.(*ssa.Call); ok {
+							out = append(out, call)
+						}
+					}
+				}
+			}
+		}
+	}
+	return out
+}
